@@ -33,10 +33,10 @@ let rec length = function
 
 (** val app : 'a1 list -> 'a1 list -> 'a1 list **)
 
-let rec app l m =
+let rec app l m0 =
   match l with
-  | [] -> m
-  | a :: l1 -> a :: (app l1 m)
+  | [] -> m0
+  | a :: l1 -> a :: (app l1 m0)
 
 type comparison =
 | Eq
@@ -52,37 +52,37 @@ let compOpp = function
 
 (** val add : nat -> nat -> nat **)
 
-let rec add n m =
+let rec add n m0 =
   match n with
-  | O -> m
-  | S p -> S (add p m)
+  | O -> m0
+  | S p -> S (add p m0)
 
 module Nat =
  struct
   (** val eqb : nat -> nat -> bool **)
 
-  let rec eqb n m =
+  let rec eqb n m0 =
     match n with
-    | O -> (match m with
+    | O -> (match m0 with
             | O -> true
             | S _ -> false)
-    | S n' -> (match m with
+    | S n' -> (match m0 with
                | O -> false
                | S m' -> eqb n' m')
 
   (** val leb : nat -> nat -> bool **)
 
-  let rec leb n m =
+  let rec leb n m0 =
     match n with
     | O -> true
-    | S n' -> (match m with
+    | S n' -> (match m0 with
                | O -> false
                | S m' -> leb n' m')
 
   (** val ltb : nat -> nat -> bool **)
 
-  let ltb n m =
-    leb (S n) m
+  let ltb n m0 =
+    leb (S n) m0
 
   (** val even : nat -> bool **)
 
@@ -121,15 +121,24 @@ let rec nth n l default =
   | O -> (match l with
           | [] -> default
           | x :: _ -> x)
-  | S m -> (match l with
-            | [] -> default
-            | _ :: t -> nth m t default)
+  | S m0 -> (match l with
+             | [] -> default
+             | _ :: t -> nth m0 t default)
 
 (** val flat_map : ('a1 -> 'a2 list) -> 'a1 list -> 'a2 list **)
 
 let rec flat_map f = function
 | [] -> []
 | x :: t -> app (f x) (flat_map f t)
+
+(** val firstn : nat -> 'a1 list -> 'a1 list **)
+
+let rec firstn n l =
+  match n with
+  | O -> []
+  | S n0 -> (match l with
+             | [] -> []
+             | a :: l0 -> a :: (firstn n0 l0))
 
 (** val skipn : nat -> 'a1 list -> 'a1 list **)
 
@@ -319,8 +328,8 @@ module Z =
 
   (** val sub : z -> z -> z **)
 
-  let sub m n =
-    add m (opp n)
+  let sub m0 n =
+    add m0 (opp n)
 
   (** val mul : z -> z -> z **)
 
@@ -685,12 +694,12 @@ let utf8_min = function
 
 (** val dec8 : bool -> ((nat * nat) * z) option -> z list -> z list option **)
 
-let rec dec8 check_min st = function
-| [] -> (match st with
+let rec dec8 check_min st0 = function
+| [] -> (match st0 with
          | Some _ -> None
          | None -> Some [])
 | b :: r ->
-  (match st with
+  (match st0 with
    | Some p ->
      let (p0, ch) = p in
      let (total, cnt) = p0 in
@@ -1083,3 +1092,681 @@ let run_file check_min o f bs =
 
 let repo_check_min =
   true
+
+type bytes = z list
+
+(** val bytes_eqb : bytes -> bytes -> bool **)
+
+let rec bytes_eqb a b =
+  match a with
+  | [] -> (match b with
+           | [] -> true
+           | _ :: _ -> false)
+  | x :: a' ->
+    (match b with
+     | [] -> false
+     | y :: b' -> (&&) (Z.eqb x y) (bytes_eqb a' b'))
+
+type role =
+| RIn
+| ROut
+| RTmp
+| RBackup
+| RMd5
+
+(** val role_eqb : role -> role -> bool **)
+
+let role_eqb a b =
+  match a with
+  | RIn -> (match b with
+            | RIn -> true
+            | _ -> false)
+  | ROut -> (match b with
+             | ROut -> true
+             | _ -> false)
+  | RTmp -> (match b with
+             | RTmp -> true
+             | _ -> false)
+  | RBackup -> (match b with
+                | RBackup -> true
+                | _ -> false)
+  | RMd5 -> (match b with
+             | RMd5 -> true
+             | _ -> false)
+
+type content =
+| Data of bytes
+| Digest of bytes
+| DigestPrefix of bytes * nat
+
+type fstate =
+| Absent
+| Closed of content
+| Writing of content * bool
+
+type opk =
+| KStat
+| KFopenR
+| KFopenW
+| KFread
+| KFclose
+| KWrite
+| KRename
+| KUnlink
+| KOpen
+| KRead
+| KClose
+| KUtime
+
+type ev = { e_op : opk; e_role : role; e_ok : bool }
+
+type fault =
+| FFail
+| FFull of nat
+
+type plan = { faults : (nat -> fault option);
+              crash : (nat * nat option) option }
+
+type st = { disk : (role -> fstate); nop : nat; trace : ev list }
+
+type 'a res =
+| Ok of 'a * st
+| Stop of z option * st
+
+type 'a m = st -> 'a res
+
+(** val ret : 'a1 -> 'a1 m **)
+
+let ret a s =
+  Ok (a, s)
+
+(** val bind : 'a1 m -> ('a1 -> 'a2 m) -> 'a2 m **)
+
+let bind m0 f s =
+  match m0 s with
+  | Ok (a, s') -> f a s'
+  | Stop (c, s') -> Stop (c, s')
+
+(** val exit_ : z -> 'a1 m **)
+
+let exit_ c s =
+  Stop ((Some c), s)
+
+(** val upd : (role -> fstate) -> role -> fstate -> role -> fstate **)
+
+let upd d r f r' =
+  if role_eqb r r' then f else d r'
+
+(** val begin_op : plan -> fault option m **)
+
+let begin_op pl s =
+  match pl.crash with
+  | Some p ->
+    let (k, o) = p in
+    (match o with
+     | Some _ ->
+       Ok ((pl.faults s.nop), { disk = s.disk; nop = (S s.nop); trace =
+         s.trace })
+     | None ->
+       if Nat.eqb k s.nop
+       then Stop (None, s)
+       else Ok ((pl.faults s.nop), { disk = s.disk; nop = (S s.nop); trace =
+              s.trace }))
+  | None ->
+    Ok ((pl.faults s.nop), { disk = s.disk; nop = (S s.nop); trace =
+      s.trace })
+
+(** val crashw_here : plan -> st -> nat option **)
+
+let crashw_here pl s =
+  match pl.crash with
+  | Some p ->
+    let (k, o) = p in
+    (match o with
+     | Some j -> if Nat.eqb (S k) s.nop then Some j else None
+     | None -> None)
+  | None -> None
+
+(** val log : opk -> role -> bool -> unit m **)
+
+let log o r ok s =
+  Ok ((), { disk = s.disk; nop = s.nop; trace =
+    (app s.trace ({ e_op = o; e_role = r; e_ok = ok } :: [])) })
+
+(** val get : role -> fstate m **)
+
+let get r s =
+  Ok ((s.disk r), s)
+
+(** val put : role -> fstate -> unit m **)
+
+let put r f s =
+  Ok ((), { disk = (upd s.disk r f); nop = s.nop; trace = s.trace })
+
+(** val exists_ : fstate -> bool **)
+
+let exists_ = function
+| Absent -> false
+| _ -> true
+
+(** val op_probe : plan -> opk -> role -> bool m **)
+
+let op_probe pl o r =
+  bind (begin_op pl) (fun f ->
+    bind (get r) (fun cur ->
+      let ok = match f with
+               | Some _ -> false
+               | None -> exists_ cur in
+      bind (log o r ok) (fun _ -> ret ok)))
+
+(** val op_read : plan -> opk -> role -> content option m **)
+
+let op_read pl o r =
+  bind (begin_op pl) (fun f ->
+    bind (get r) (fun cur ->
+      bind (log o r true) (fun _ ->
+        ret
+          (match f with
+           | Some _ -> None
+           | None ->
+             (match cur with
+              | Absent -> None
+              | Closed c -> Some c
+              | Writing (c, _) -> Some c)))))
+
+(** val op_close : plan -> role -> unit m **)
+
+let op_close pl r =
+  bind (begin_op pl) (fun _ -> log KClose r true)
+
+(** val op_simple : plan -> opk -> role -> bool m **)
+
+let op_simple pl o r =
+  bind (begin_op pl) (fun f ->
+    let ok = match f with
+             | Some _ -> false
+             | None -> true in
+    bind (log o r ok) (fun _ -> ret ok))
+
+(** val op_fopen_w : plan -> role -> bool m **)
+
+let op_fopen_w pl r =
+  bind (begin_op pl) (fun f ->
+    match f with
+    | Some _ -> bind (log KFopenW r false) (fun _ -> ret false)
+    | None ->
+      bind (put r (Writing ((Data []), false))) (fun _ ->
+        bind (log KFopenW r true) (fun _ -> ret true)))
+
+(** val app_content : content -> content -> nat option -> content **)
+
+let app_content c d j =
+  match c with
+  | Data a ->
+    (match a with
+     | [] ->
+       (match d with
+        | Data b ->
+          Data (app a (match j with
+                       | Some n -> firstn n b
+                       | None -> b))
+        | Digest b ->
+          (match j with
+           | Some n -> DigestPrefix (b, n)
+           | None -> Digest b)
+        | DigestPrefix (_, _) -> c)
+     | _ :: _ ->
+       (match d with
+        | Data b ->
+          Data (app a (match j with
+                       | Some n -> firstn n b
+                       | None -> b))
+        | _ -> c))
+  | _ -> c
+
+(** val bites : content -> nat -> bool **)
+
+let bites d j =
+  match d with
+  | Data b -> Nat.ltb j (length b)
+  | _ -> true
+
+(** val eff_fault : content -> fault option -> fault option **)
+
+let eff_fault d f0 = match f0 with
+| Some f ->
+  (match f with
+   | FFail -> if bites d O then f0 else None
+   | FFull j -> if bites d j then f0 else None)
+| None -> None
+
+(** val eff_crash : content -> nat option -> nat option **)
+
+let eff_crash d = function
+| Some j -> if bites d j then Some j else None
+| None -> None
+
+(** val op_write : plan -> role -> content -> unit m **)
+
+let op_write pl r d =
+  bind (begin_op pl) (fun f0 ->
+    bind (log KWrite r true) (fun _ ->
+      bind (get r) (fun cur s ->
+        match cur with
+        | Writing (c, e) ->
+          (match eff_crash d (crashw_here pl s) with
+           | Some j ->
+             Stop (None, { disk =
+               (upd s.disk r (Writing ((app_content c d (Some j)), e)));
+               nop = s.nop; trace = s.trace })
+           | None ->
+             (match eff_fault d f0 with
+              | Some f ->
+                (match f with
+                 | FFail ->
+                   Ok ((), { disk = (upd s.disk r (Writing (c, true))); nop =
+                     s.nop; trace = s.trace })
+                 | FFull j ->
+                   if e
+                   then Ok ((), s)
+                   else Ok ((), { disk =
+                          (upd s.disk r (Writing ((app_content c d (Some j)),
+                            true))); nop = s.nop; trace = s.trace }))
+              | None ->
+                if e
+                then Ok ((), s)
+                else Ok ((), { disk =
+                       (upd s.disk r (Writing ((app_content c d None), e)));
+                       nop = s.nop; trace = s.trace })))
+        | _ -> Ok ((), s))))
+
+(** val op_fclose_w : plan -> role -> bool m **)
+
+let op_fclose_w pl r =
+  bind (begin_op pl) (fun f ->
+    bind (get r) (fun cur ->
+      match cur with
+      | Writing (c, e) ->
+        let ok = (&&) (negb e) (match f with
+                                | Some _ -> false
+                                | None -> true)
+        in
+        bind (put r (Closed c)) (fun _ ->
+          bind (log KFclose r ok) (fun _ -> ret ok))
+      | _ -> bind (log KFclose r false) (fun _ -> ret false)))
+
+(** val op_rename : plan -> role -> role -> bool m **)
+
+let op_rename pl a b =
+  bind (begin_op pl) (fun f ->
+    bind (get a) (fun cur ->
+      match f with
+      | Some _ -> bind (log KRename a false) (fun _ -> ret false)
+      | None ->
+        (match cur with
+         | Closed c ->
+           bind (put b (Closed c)) (fun _ ->
+             bind (put a Absent) (fun _ ->
+               bind (log KRename a true) (fun _ -> ret true)))
+         | _ -> bind (log KRename a false) (fun _ -> ret false))))
+
+(** val op_unlink : plan -> role -> bool m **)
+
+let op_unlink pl r =
+  bind (begin_op pl) (fun f ->
+    match f with
+    | Some _ -> bind (log KUnlink r false) (fun _ -> ret false)
+    | None ->
+      bind (put r Absent) (fun _ ->
+        bind (log KUnlink r true) (fun _ -> ret true)))
+
+type mode = { in_place : bool; to_file : bool; no_backup : bool;
+              if_changed : bool; do_check : bool; keep_mtime : bool }
+
+(** val eX_IOERR : z **)
+
+let eX_IOERR =
+  Zpos (XO (XI (XO (XI (XO (XO XH))))))
+
+(** val eX_SOFTWARE : z **)
+
+let eX_SOFTWARE =
+  Zpos (XO (XI (XI (XO (XO (XO XH))))))
+
+(** val eX_FMT : z **)
+
+let eX_FMT =
+  Zpos (XO (XI (XI (XO (XO (XO XH))))))
+
+(** val content_eqb : content -> content -> bool **)
+
+let content_eqb a b =
+  match a with
+  | Data x -> (match b with
+               | Data y -> bytes_eqb x y
+               | _ -> false)
+  | Digest x -> (match b with
+                 | Digest y -> bytes_eqb x y
+                 | _ -> false)
+  | DigestPrefix (x, i) ->
+    (match b with
+     | DigestPrefix (y, j) -> (&&) (bytes_eqb x y) (Nat.eqb i j)
+     | _ -> false)
+
+(** val bytes_of : content -> bytes **)
+
+let bytes_of = function
+| Data b -> b
+| Digest b -> b
+| DigestPrefix (b, _) -> b
+
+(** val load : plan -> bytes m **)
+
+let load pl =
+  bind (op_probe pl KStat RIn) (fun ok ->
+    if negb ok
+    then exit_ eX_IOERR
+    else bind (get RIn) (fun cur ->
+           bind (op_probe pl KFopenR RIn) (fun ok2 ->
+             if negb ok2
+             then exit_ eX_IOERR
+             else (match cur with
+                   | Absent ->
+                     bind (op_read pl KFread RIn) (fun c ->
+                       match c with
+                       | Some c0 ->
+                         (match c0 with
+                          | Data b ->
+                            bind (op_simple pl KFclose RIn) (fun _ -> ret b)
+                          | _ -> exit_ eX_IOERR)
+                       | None -> exit_ eX_IOERR)
+                   | Closed c ->
+                     (match c with
+                      | Data b ->
+                        (match b with
+                         | [] ->
+                           bind (op_simple pl KFclose RIn) (fun _ -> ret [])
+                         | _ :: _ ->
+                           bind (op_read pl KFread RIn) (fun c0 ->
+                             match c0 with
+                             | Some c1 ->
+                               (match c1 with
+                                | Data b0 ->
+                                  bind (op_simple pl KFclose RIn) (fun _ ->
+                                    ret b0)
+                                | _ -> exit_ eX_IOERR)
+                             | None -> exit_ eX_IOERR))
+                      | Digest _ ->
+                        bind (op_read pl KFread RIn) (fun c0 ->
+                          match c0 with
+                          | Some c1 ->
+                            (match c1 with
+                             | Data b ->
+                               bind (op_simple pl KFclose RIn) (fun _ ->
+                                 ret b)
+                             | _ -> exit_ eX_IOERR)
+                          | None -> exit_ eX_IOERR)
+                      | DigestPrefix (_, _) ->
+                        bind (op_read pl KFread RIn) (fun c0 ->
+                          match c0 with
+                          | Some c1 ->
+                            (match c1 with
+                             | Data b ->
+                               bind (op_simple pl KFclose RIn) (fun _ ->
+                                 ret b)
+                             | _ -> exit_ eX_IOERR)
+                          | None -> exit_ eX_IOERR))
+                   | Writing (_, _) ->
+                     bind (op_read pl KFread RIn) (fun c ->
+                       match c with
+                       | Some c0 ->
+                         (match c0 with
+                          | Data b ->
+                            bind (op_simple pl KFclose RIn) (fun _ -> ret b)
+                          | _ -> exit_ eX_IOERR)
+                       | None -> exit_ eX_IOERR)))))
+
+(** val backup_copy : plan -> bytes -> unit m **)
+
+let backup_copy pl orig =
+  bind (op_probe pl KFopenR RMd5) (fun okm ->
+    bind
+      (if okm
+       then bind (op_read pl KFread RMd5) (fun c ->
+              bind (op_simple pl KFclose RMd5) (fun _ -> ret c))
+       else ret None) (fun recorded ->
+      let same =
+        match recorded with
+        | Some c ->
+          (match c with
+           | Data _ -> false
+           | Digest b -> bytes_eqb b orig
+           | DigestPrefix (b, j) ->
+             (&&)
+               (Nat.leb (S (S (S (S (S (S (S (S (S (S (S (S (S (S (S (S (S (S
+                 (S (S (S (S (S (S (S (S (S (S (S (S (S (S
+                 O)))))))))))))))))))))))))))))))) j) (bytes_eqb b orig))
+        | None -> false
+      in
+      if same
+      then ret ()
+      else bind (op_fopen_w pl RBackup) (fun okb ->
+             if negb okb
+             then exit_ eX_SOFTWARE
+             else bind (op_write pl RBackup (Data orig)) (fun _ ->
+                    bind (op_fclose_w pl RBackup) (fun okc ->
+                      if okc then ret () else exit_ eX_SOFTWARE)))))
+
+(** val content_matches : plan -> role -> role -> bool m **)
+
+let content_matches pl a b =
+  bind (op_probe pl KStat a) (fun sa ->
+    bind (get a) (fun ca ->
+      if negb sa
+      then ret false
+      else bind (op_probe pl KStat b) (fun sb ->
+             bind (get b) (fun cb ->
+               if negb sb
+               then ret false
+               else let la =
+                      match ca with
+                      | Closed c -> length (bytes_of c)
+                      | _ -> O
+                    in
+                    let lb =
+                      match cb with
+                      | Closed c -> length (bytes_of c)
+                      | _ -> O
+                    in
+                    if negb (Nat.eqb la lb)
+                    then ret false
+                    else bind (op_probe pl KOpen a) (fun oa ->
+                           if negb oa
+                           then ret false
+                           else bind (op_probe pl KOpen b) (fun ob ->
+                                  if negb ob
+                                  then bind (op_close pl a) (fun _ ->
+                                         ret false)
+                                  else bind (op_read pl KRead a) (fun ra ->
+                                         bind (op_read pl KRead b) (fun rb ->
+                                           match ra with
+                                           | Some x ->
+                                             (match rb with
+                                              | Some y ->
+                                                if Nat.eqb la O
+                                                then bind (op_close pl a)
+                                                       (fun _ ->
+                                                       bind (op_close pl b)
+                                                         (fun _ -> ret true))
+                                                else if content_eqb x y
+                                                     then bind
+                                                            (op_read pl KRead
+                                                              a) (fun ra2 ->
+                                                            bind
+                                                              (op_read pl
+                                                                KRead b)
+                                                              (fun rb2 ->
+                                                              bind
+                                                                (op_close pl
+                                                                  a)
+                                                                (fun _ ->
+                                                                bind
+                                                                  (op_close
+                                                                    pl b)
+                                                                  (fun _ ->
+                                                                  ret
+                                                                    (
+                                                                    match ra2 with
+                                                                    | Some _ ->
+                                                                    (match rb2 with
+                                                                    | Some _ ->
+                                                                    true
+                                                                    | None ->
+                                                                    false)
+                                                                    | None ->
+                                                                    false)))))
+                                                     else bind
+                                                            (op_close pl a)
+                                                            (fun _ ->
+                                                            bind
+                                                              (op_close pl b)
+                                                              (fun _ ->
+                                                              ret false))
+                                              | None ->
+                                                bind (op_close pl a)
+                                                  (fun _ ->
+                                                  bind (op_close pl b)
+                                                    (fun _ -> ret false)))
+                                           | None ->
+                                             bind (op_close pl a) (fun _ ->
+                                               bind (op_close pl b) (fun _ ->
+                                                 ret false))))))))))
+
+(** val create_md5 : plan -> unit m **)
+
+let create_md5 pl =
+  bind (op_probe pl KFopenR RIn) (fun ok ->
+    if negb ok
+    then exit_ eX_SOFTWARE
+    else bind (op_read pl KFread RIn) (fun c ->
+           bind (op_simple pl KFclose RIn) (fun _ ->
+             bind (op_fopen_w pl RMd5) (fun okw ->
+               if negb okw
+               then ret ()
+               else bind
+                      (op_write pl RMd5 (Digest
+                        (match c with
+                         | Some x -> bytes_of x
+                         | None -> []))) (fun _ ->
+                      bind (op_fclose_w pl RMd5) (fun _ -> ret ()))))))
+
+type out = { stdout : bytes; check_fail : bool }
+
+(** val write_out :
+    plan -> mode -> (bytes -> bytes option) -> bytes option -> bytes -> out m **)
+
+let write_out pl md fmt pre orig =
+  let tmp = if md.in_place then RTmp else ROut in
+  let target = if md.in_place then RIn else ROut in
+  bind
+    (if (&&) md.in_place (negb md.no_backup)
+     then backup_copy pl orig
+     else ret ()) (fun _ ->
+    bind (op_fopen_w pl tmp) (fun okt ->
+      if negb okt
+      then exit_ eX_IOERR
+      else (match match pre with
+                  | Some f -> Some f
+                  | None -> fmt orig with
+            | Some f ->
+              bind
+                (match f with
+                 | [] -> ret ()
+                 | _ :: _ -> op_write pl tmp (Data f)) (fun _ ->
+                bind (op_fclose_w pl tmp) (fun okc ->
+                  if negb okc
+                  then bind
+                         (if md.in_place then op_unlink pl tmp else ret true)
+                         (fun _ -> exit_ eX_IOERR)
+                  else bind
+                         (if md.in_place
+                          then bind
+                                 (if md.if_changed
+                                  then ret false
+                                  else content_matches pl tmp target)
+                                 (fun same ->
+                                 if same
+                                 then bind (op_unlink pl tmp) (fun _ ->
+                                        ret ())
+                                 else bind (op_rename pl tmp target)
+                                        (fun okr ->
+                                        if okr then ret () else exit_ eX_IOERR))
+                          else ret ()) (fun _ ->
+                         bind
+                           (if (&&) md.in_place (negb md.no_backup)
+                            then create_md5 pl
+                            else ret ()) (fun _ ->
+                           bind
+                             (if md.keep_mtime
+                              then bind (op_simple pl KUtime RIn) (fun _ ->
+                                     ret ())
+                              else ret ()) (fun _ ->
+                             ret { stdout = []; check_fail = false })))))
+            | None -> exit_ eX_FMT)))
+
+(** val after_load :
+    plan -> mode -> (bytes -> bytes option) -> bytes -> bytes option -> out m **)
+
+let after_load pl md fmt orig pre =
+  if md.do_check
+  then (match fmt orig with
+        | Some f ->
+          ret { stdout = []; check_fail = (negb (bytes_eqb f orig)) }
+        | None -> exit_ eX_FMT)
+  else if negb md.to_file
+       then (match match pre with
+                   | Some f -> Some f
+                   | None -> fmt orig with
+             | Some f -> ret { stdout = f; check_fail = false }
+             | None -> exit_ eX_FMT)
+       else write_out pl md fmt pre orig
+
+(** val do_source_file : plan -> mode -> (bytes -> bytes option) -> out m **)
+
+let do_source_file pl md fmt =
+  bind (load pl) (fun orig ->
+    if md.if_changed
+    then (match fmt orig with
+          | Some f ->
+            if bytes_eqb f orig
+            then ret { stdout = []; check_fail = false }
+            else after_load pl md fmt orig (Some f)
+          | None -> exit_ eX_FMT)
+    else after_load pl md fmt orig None)
+
+type result = { r_disk : (role -> fstate); r_exit : z option;
+                r_trace : ev list; r_out : out option; r_ops : nat }
+
+(** val run :
+    plan -> mode -> (bytes -> bytes option) -> (role -> fstate) -> result **)
+
+let run pl md fmt d0 =
+  match do_source_file pl md fmt { disk = d0; nop = O; trace = [] } with
+  | Ok (o, s) ->
+    { r_disk = s.disk; r_exit = (Some
+      (if o.check_fail then Zpos XH else Z0)); r_trace = s.trace; r_out =
+      (Some o); r_ops = s.nop }
+  | Stop (c, s) ->
+    { r_disk = s.disk; r_exit = c; r_trace = s.trace; r_out = None; r_ops =
+      s.nop }
+
+(** val no_plan : plan **)
+
+let no_plan =
+  { faults = (fun _ -> None); crash = None }
+
+(** val disk0 : bytes -> role -> fstate **)
+
+let disk0 orig = function
+| RIn -> Closed (Data orig)
+| _ -> Absent
